@@ -111,6 +111,13 @@ PLANS = {
         "quick": [ex("peg2", "peg", 2, 3), ex("emit3", "emit", 3, 3), rec("pegR", "peg", 1500, 8, 8), rec("emitR", "emit", 1500, 8, 8)],
         "thorough": [ex("peg3", "peg", 3, 3), ex("emit4", "emit", 4, 3), rec("pegR", "peg", 20000, 10, 10), rec("emitR", "emit", 20000, 10, 10)],
     },
+    "C19": {
+        "quick": [ex("drp3", "drp", 3, 3, invariants=DEFAULT_INVARIANTS + ["NoLeak"]), ex("drpT", "drpT", 1, 3, invariants=DEFAULT_INVARIANTS + ["NoLeak"]),
+                  rec("drpR", "drp", 2500, 8, 8, invariants=DEFAULT_INVARIANTS + ["NoLeak"]), rec("pegR", "peg", 1000, 8, 8), rec("rcvR", "rcv", 1000, 8, 8)],
+        "thorough": [ex("drp4", "drp", 4, 3, invariants=DEFAULT_INVARIANTS + ["NoLeak"]), ex("drpT", "drpT", 1, 4, invariants=DEFAULT_INVARIANTS + ["NoLeak"]),
+                     rec("drpR", "drp", 30000, 10, 10, invariants=DEFAULT_INVARIANTS + ["NoLeak"]), rec("pegR", "peg", 20000, 10, 10), rec("rcvR", "rcv", 20000, 10, 10),
+                     rec("repR", "rep", 20000, 9, 12)],
+    },
     "C20": {
         "quick": [ex("peg2", "peg", 2, 3, etys=["rich", "empty"]), ex("err2", "err", 2, 3, etys=ALL_ETYS), rec("pegR", "peg", 1500, 8, 8, etys=ALL_ETYS)],
         "thorough": [ex("peg3", "peg", 3, 3, etys=["rich", "empty"]), ex("err3", "err", 3, 3, etys=ALL_ETYS), rec("pegR", "peg", 30000, 10, 12, etys=ALL_ETYS)],
